@@ -63,7 +63,8 @@ def run(ctx):
                 if ctx.tier == "quick" and j % 2 != ctx.seed % 2:
                     continue
                 runs += ce.kc_runs(c, forms=("function", "estimator") if j % 4 == 0 else ("function",),
-                                   dtypes=("float64", DTYPES[1 + j % 4]) if j % 6 == 0 else (DTYPES[j % 5],))
+                                   dtypes=("float64", DTYPES[1 + j % 4]) if j % 6 == 0 else (DTYPES[j % 5],),
+                                   beyond=(j % 5 == 1))
             elif kind == "pam":
                 if ctx.tier == "quick" and c["props"] and j % 4 != ctx.seed % 4:
                     continue
@@ -77,6 +78,8 @@ def run(ctx):
                 runs.append(dict(base, sweeps=j % 3, form="function"))
                 if j % 3 == 0:
                     runs.append(dict(base, sweeps=1, form="estimator"))
+                if j % 7 == 2 and c["k"] >= 2:     # more clusters requested than there are frames
+                    runs.append(dict(base, sweeps=1, form=("function", "estimator")[j % 2], k=len(c["pts"]) + 1))
     if ctx.tier == "thorough":
         rng = np.random.RandomState(ctx.seed + 1)
         runs += ce.random_runs(rng, 15000, ["kcenters", "kmedoids", "hybrid"])
